@@ -201,6 +201,12 @@ func initNode(dir string, cfg LayoutCfg) error {
 	return nil
 }
 
+// a query that has not answered after this long is reported as Err "timeout" (queries of these tiny indexes take
+// milliseconds); the queries after it are not run in this process: a hung search keeps spinning and the layout would
+// otherwise cost one timeout per query
+const queryTimeout = 15 * time.Second
+const skippedAfterTimeout = "skipped: an earlier query of this layout timed out"
+
 var qidCtr uint64 = 100
 var keepOrder bool
 
@@ -356,7 +362,7 @@ func runEsQuery(idx, body string) Obs {
 		}
 		paths.mu.Unlock()
 		return r
-	case <-time.After(30 * time.Second):
+	case <-time.After(queryTimeout):
 		return Obs{Err: "timeout", Raw: -1, Pqs: -1}
 	}
 }
@@ -366,8 +372,20 @@ func runQuery(idx, text string) Obs {
 		return runEsQuery(idx, text[3:])
 	}
 	qidCtr++
+	// "tr:<startEpochMs>:<endEpochMs>:<query>" = the query asked with that time range (default: a range covering every event)
+	startEpoch, endEpoch := tsBase-1000, tsBase+100000000
+	if strings.HasPrefix(text, "tr:") {
+		parts := strings.SplitN(text, ":", 4)
+		if len(parts) == 4 {
+			s, err1 := strconv.ParseUint(parts[1], 10, 64)
+			e, err2 := strconv.ParseUint(parts[2], 10, 64)
+			if err1 == nil && err2 == nil {
+				startEpoch, endEpoch, text = s, e, parts[3]
+			}
+		}
+	}
 	req := map[string]interface{}{
-		"searchText": text, "indexName": idx, "startEpoch": tsBase - 1000, "endEpoch": tsBase + 100000000,
+		"searchText": text, "indexName": idx, "startEpoch": startEpoch, "endEpoch": endEpoch,
 		"size": uint64(10000), "from": uint64(0), "queryLanguage": "Splunk QL", "state": "query",
 	}
 	ch := make(chan Obs, 1)
@@ -440,7 +458,7 @@ func runQuery(idx, text string) Obs {
 		}
 		paths.mu.Unlock()
 		return r
-	case <-time.After(30 * time.Second):
+	case <-time.After(queryTimeout):
 		return Obs{Err: "timeout", Raw: -1, Pqs: -1}
 	}
 }
@@ -546,8 +564,15 @@ func workerMain(dir, scriptPath, outPath string) {
 	if sc.Cfg.DumpRanges != "" {
 		out.Ranges = writer.VerifC03UnrotatedRanges(sc.Cfg.DumpRanges)
 	}
+	hung := false
 	for _, q := range sc.Queries {
-		out.Obs = append(out.Obs, runQuery(sc.Idx, q))
+		if hung {
+			out.Obs = append(out.Obs, Obs{Err: skippedAfterTimeout, Raw: -1, Pqs: -1})
+			continue
+		}
+		o := runQuery(sc.Idx, q)
+		hung = o.Err == "timeout"
+		out.Obs = append(out.Obs, o)
 	}
 	ob, _ := json.Marshal(out)
 	if err := os.WriteFile(outPath, ob, 0o644); err != nil {
